@@ -15,6 +15,8 @@ type Guard struct {
 	Val      bool     // Cond evaluates to Val whenever the site executes
 	Implicit bool     // derived from an early exit (`if C { return }`) or an assertion preceding the site
 	At       ast.Node // statement that contributes the guard
+	Fn       *Fn      // function the condition is written in (differs from the site's function for lifted guards)
+	Lifted   bool     // holds at the single static call site of the helper the site sits in
 }
 
 func (w *World) parentOf(n ast.Node) ast.Node {
@@ -105,6 +107,34 @@ func (w *World) siblingGuards(list []ast.Stmt, child ast.Node, out *[]Guard) {
 // Guards lists the conditions that hold whenever node n of function f runs
 // (conjunctions are split, negations pushed into Val).
 func (w *World) Guards(f *Fn, n ast.Node) []Guard {
+	return w.guardsLifted(f, n, 3)
+}
+
+// guardsLifted adds, for a site in an unexported helper with exactly one static, synchronous
+// call site, the guards of that call site (an extracted helper inherits the conditions its
+// only caller runs it under).
+func (w *World) guardsLifted(f *Fn, n ast.Node, depth int) []Guard {
+	out := w.guardsLocal(f, n)
+	for i := range out {
+		if out[i].Fn == nil {
+			out[i].Fn = f
+		}
+	}
+	if f == nil || depth <= 0 || f.Decl == nil || f.Obj == nil || f.Obj.Exported() {
+		return out
+	}
+	in := w.CG().In[f]
+	if len(in) != 1 || in[0].Kind != "static" || in[0].Async || in[0].Deferred || in[0].Caller == nil || in[0].Caller == f {
+		return out
+	}
+	for _, g := range w.guardsLifted(in[0].Caller, in[0].Node, depth-1) {
+		g.Lifted = true
+		out = append(out, g)
+	}
+	return out
+}
+
+func (w *World) guardsLocal(f *Fn, n ast.Node) []Guard {
 	var raw []Guard
 	child := n
 	for {
@@ -187,13 +217,13 @@ func (w *World) Guards(f *Fn, n ast.Node) []Guard {
 		switch x := unparen(g.Cond).(type) {
 		case *ast.BinaryExpr:
 			if (x.Op == token.LAND && g.Val) || (x.Op == token.LOR && !g.Val) {
-				split(Guard{x.X, g.Val, g.Implicit, g.At})
-				split(Guard{x.Y, g.Val, g.Implicit, g.At})
+				split(Guard{Cond: x.X, Val: g.Val, Implicit: g.Implicit, At: g.At})
+				split(Guard{Cond: x.Y, Val: g.Val, Implicit: g.Implicit, At: g.At})
 				return
 			}
 		case *ast.UnaryExpr:
 			if x.Op == token.NOT {
-				split(Guard{x.X, !g.Val, g.Implicit, g.At})
+				split(Guard{Cond: x.X, Val: !g.Val, Implicit: g.Implicit, At: g.At})
 				return
 			}
 		}
@@ -359,6 +389,14 @@ func (w *World) Origin(f *Fn, e ast.Expr) ast.Expr {
 				return e
 			}
 			defs := w.DefsOf(f, v)
+			if len(defs) == 0 {
+				// a parameter of an extracted helper (unexported, one static synchronous call site):
+				// continue with the argument it is called with
+				if arg, caller := w.soleArgument(f, v); arg != nil {
+					e, f = arg, caller
+					continue
+				}
+			}
 			if len(defs) != 1 {
 				return e
 			}
@@ -368,6 +406,86 @@ func (w *World) Origin(f *Fn, e ast.Expr) ast.Expr {
 		return e
 	}
 	return e
+}
+
+// soleCallSite: the only call site of an unexported, declared function (static, synchronous); nil otherwise.
+func (w *World) soleCallSite(f *Fn) *CallSite {
+	if f == nil {
+		return nil
+	}
+	f = f.Root()
+	if f.Decl == nil || f.Obj == nil || f.Obj.Exported() {
+		return nil
+	}
+	in := w.CG().In[f]
+	if len(in) != 1 || in[0].Kind != "static" || in[0].Async || in[0].Deferred || in[0].Caller == nil || in[0].Caller.Root() == f {
+		return nil
+	}
+	if _, ok := in[0].Node.(*ast.CallExpr); !ok {
+		return nil
+	}
+	return in[0]
+}
+
+// soleArgument: v is a parameter (or the receiver) of f's declared root, which has a sole call
+// site: the argument expression (or receiver expression) there, and the calling function.
+func (w *World) soleArgument(f *Fn, v *types.Var) (ast.Expr, *Fn) {
+	cs := w.soleCallSite(f)
+	if cs == nil {
+		return nil, nil
+	}
+	root := f.Root()
+	call := cs.Node.(*ast.CallExpr)
+	if root.Decl.Recv != nil && len(root.Decl.Recv.List) == 1 && len(root.Decl.Recv.List[0].Names) == 1 && w.Info.Defs[root.Decl.Recv.List[0].Names[0]] == types.Object(v) {
+		if se, ok := unparen(call.Fun).(*ast.SelectorExpr); ok {
+			return se.X, cs.Caller
+		}
+		return nil, nil
+	}
+	i := 0
+	if root.Decl.Type.Params == nil {
+		return nil, nil
+	}
+	for _, fl := range root.Decl.Type.Params.List {
+		if _, variadic := fl.Type.(*ast.Ellipsis); variadic {
+			return nil, nil
+		}
+		for _, name := range fl.Names {
+			if w.Info.Defs[name] == types.Object(v) {
+				if i < len(call.Args) && len(call.Args) == root.Decl.Type.Params.NumFields() {
+					return call.Args[i], cs.Caller
+				}
+				return nil, nil
+			}
+			i++
+		}
+		if len(fl.Names) == 0 {
+			i++
+		}
+	}
+	return nil, nil
+}
+
+// walkInl visits f's body, nested literals, and the bodies of helpers that have their sole call
+// site in what is visited (an extracted helper is part of its only caller), two levels deep.
+func (f *Fn) walkInl(visit func(own *Fn, n ast.Node) bool) {
+	var rec func(g *Fn, depth int)
+	rec = func(g *Fn, depth int) {
+		g.walkDeep(func(own *Fn, n ast.Node) bool {
+			if !visit(own, n) {
+				return false
+			}
+			if call, ok := n.(*ast.CallExpr); ok && depth > 0 {
+				if callee := f.W.calleeFn(own, call); callee != nil && callee.Decl != nil {
+					if cs := f.W.soleCallSite(callee); cs != nil && cs.Node == ast.Node(call) {
+						rec(callee, depth-1)
+					}
+				}
+			}
+			return true
+		})
+	}
+	rec(f, 2)
 }
 
 // isCallTo: e is a call whose resolved callee is obj.
@@ -384,7 +502,54 @@ func (w *World) isCallTo(e ast.Expr, obj types.Object) bool {
 			return true
 		}
 	}
-	return false
+	// the body of a one-line helper written out in place (`lf.dataKey != nil` for lf.encryptionEnabled())
+	return w.isInlined(e, obj)
+}
+
+// tinyBody: the result expression of a method or function whose body is a single `return X`.
+func (w *World) tinyBody(obj types.Object) (ast.Expr, *Fn) {
+	fn, ok := obj.(*types.Func)
+	if !ok {
+		return nil, nil
+	}
+	f := w.ByObj[fn]
+	if f == nil || f.Decl == nil || f.Body == nil || len(f.Body.List) != 1 {
+		return nil, nil
+	}
+	rs, ok := f.Body.List[0].(*ast.ReturnStmt)
+	if !ok || len(rs.Results) != 1 {
+		return nil, nil
+	}
+	return rs.Results[0], f
+}
+
+// isInlined: e is, up to the name of the receiver, the single result expression of obj (a
+// parameterless one-line method).
+func (w *World) isInlined(e ast.Expr, obj types.Object) bool {
+	body, f := w.tinyBody(obj)
+	if body == nil || f.Decl.Recv == nil || len(f.Decl.Recv.List) != 1 || len(f.Decl.Recv.List[0].Names) != 1 || f.Decl.Type.Params.NumFields() != 0 {
+		return false
+	}
+	recv := w.Info.Defs[f.Decl.Recv.List[0].Names[0]]
+	if recv == nil {
+		return false
+	}
+	rolesB := map[types.Object]string{recv: "$recv"}
+	// in e: every variable of the receiver's type plays the receiver
+	rolesE := map[types.Object]string{}
+	rt := namedOf(recv.Type())
+	ast.Inspect(e, func(n ast.Node) bool {
+		if id, ok := n.(*ast.Ident); ok {
+			if v, ok := w.Use(id).(*types.Var); ok && !v.IsField() && rt != nil && namedOf(v.Type()) == rt {
+				rolesE[v] = "$recv"
+			}
+		}
+		return true
+	})
+	if len(rolesE) != 1 {
+		return false
+	}
+	return w.norm(unparen(e), rolesE) == w.norm(body, rolesB)
 }
 
 // fieldFrom: the field an expression's value comes from, looking through single-definition locals.
